@@ -30,7 +30,7 @@ func (c08) Runs(tier string) int {
 	if tier == "thorough" {
 		return 60000
 	}
-	return 600
+	return 1500
 }
 
 func (c08) Describe() api.Description {
@@ -240,7 +240,7 @@ func (w c08) Run(b api.Batch) *api.Result {
 			for _, v := range k.regs {
 				h = rng.Derive(h, uint64(uint32(v)))
 			}
-			res.Counters["digest_head_xor"] ^= int64(h)
+			res.Counters["digest_head_sum"] += int64(h >> 2) // additive: merges across workers in any order
 		}
 		report := func(kind, diff string, p detPayload) {
 			class := kind + ":" + fieldOf(diff)
